@@ -11,12 +11,12 @@ NoFilters == {}
 NoStates == {}
 NoHist == {}
 VARIABLE tid
-Conv(L) == [i \in 1..Len(L) |-> [f |-> {L[i].f[j] : j \in 1..Len(L[i].f)}, ig |-> L[i].ig, dc |-> L[i].dc]]
+Conv(L) == [i \in 1..Len(L) |-> [f |-> {L[i].f[j] : j \in 1..Len(L[i].f)}, ig |-> L[i].ig, dc |-> L[i].dc, late |-> L[i].late]]
 TraceInit ==
   /\ tid \in 1..Len(Obs)
   /\ LET o == Obs[tid] IN
        /\ EI = Conv(o.EI) /\ OI = Conv(o.OI) /\ EO = Conv(o.EO) /\ OO = Conv(o.OO)
-       /\ hist = o.hist /\ batch = o.batch /\ st = o.st /\ forced = o.forced
+       /\ hist = o.hist /\ batch = o.batch /\ st = o.st /\ forced = o.forced /\ lateK = o.lateK
   /\ k = 1 /\ stage = "early" /\ queue = <<>> /\ log = <<>> /\ wire = <<>> /\ closed = FALSE /\ ignored = FALSE /\ nw = 0 /\ fdone = FALSE
   /\ reacted = {} /\ comp = FALSE
 TraceSpec == TraceInit /\ [][Next /\ UNCHANGED tid]_<<vars, tid>>
